@@ -258,6 +258,17 @@ class World:
             if like[0].kind == "symbol":
                 if e.operands[1] is not like[0]:
                     raise Bad("readback/constant-like", "constant(%r, like=symbol %s) refers to %r" % (val, like[0].operands[0], e.operands[1]))
+            # whatever sub-expression the like is normalised to, it must be of the same kind of value as the like that was
+            # passed (model tag of that operand): constant(v, abs(z)) is a real constant, not one "like z"
+            try:
+                tk = e.operands[1].get_type().kind
+            except Exception:
+                tk = None
+            expect = {"real": "float", "complex": "complex", "bool": "boolean", "int": "integer"}[like[1]]
+            # (only real vs complex is asserted, and not for likes that are constants themselves: their own like may be the
+            # context's default one)
+            if tk in ("float", "complex") and expect in ("float", "complex") and tk != expect and like[0].kind != "constant":
+                raise Bad("readback/constant-like-kind", "constant(%r, like=<%s %s expression>) refers to a like of kind %s" % (val, like[1], like[0].kind, tk))
             if is_nan_value(val):
                 self.stats["nan_consts"] += 1
             self.note_near_miss(val, e.operands[1])
